@@ -278,6 +278,10 @@ func TestC01SynText(t *testing.T) {
 	for _, content := range []string{
 		"first\n.hidden looking line\n..\n.\nlast\n",
 		".synthetic line\n.sy\n.ack close connection\nend\n",
+		// lines that look like records or messages of the protocol, blank and whitespace-only lines, fragments of the close message
+		"SERVER|host1|WARN|a line of a dtail log\nCLIENT|1|INFO|x\nREMOTE|h|100|1|f|y\nAGGREGATE|h|g\nSERVER|\nend\n",
+		"para 1\n\n   \n\t\npara 2\n \n\n",
+		"a\n.syn\n.syn close\n.syn  \n.ack\nz\n",
 		"before\n.syn close connection said the log\nafter 1\nafter 2\n",
 	} {
 		path := filepath.Join(dir, "dots.log")
